@@ -1033,7 +1033,146 @@ let id_pipe st env : item list * env =
                pr (call a3 [call h [lit st; lit st]; lit st; call m3 [lit st; lit st; lit st]])] in
   (items, bind (bindv (bind (bind (bind env va3) vm3) vind) cap TInt BLet) vh)
 
+(* ---- for-in loops (EForInRange / EForInArr) ------------------------------------------------------
+   ascending and descending ranges (literal and computed bounds, single-element ranges, bounds next
+   to each other), arrays, nested loops, function values capturing the loop variable called during
+   and AFTER the loop (stored in an array / returned from a function), assignment inside bodies,
+   faults inside bodies with catch clauses, loops inside functions that are called repeatedly. *)
+let forr x a b body = EForInRange (nn x, a, b, body)
+let fora x a body = EForInArr (nn x, a, body)
+
+let id_forin st env : item list * env =
+  flag st "forin";
+  let zero () = lam st [] TInt [IExpr (ei 0)] in
+  (* a range of n values starting at lo, in the given direction: (from, to) *)
+  let ends lo n down = if down then (lo + n - 1, lo) else (lo, lo + n - 1) in
+  let form = Rng.weighted st.rng [22, 0; 16, 1; 14, 2; 12, 3; 12, 4; 12, 5; 12, 6] in
+  match form with
+  | 0 ->
+    (* one function value per iteration, stored in an array, called after the loop *)
+    let fs = fresh st and i = fresh st and j = fresh st and b = fresh st in
+    let n = Rng.range st.rng 1 4 in
+    let lo = Rng.pick st.rng [-2; -1; 0; 0; 1; 1; 2; 7] in
+    let down = Rng.pct st.rng 60 in
+    let f, t = ends lo n down in
+    flag st "closure_loopvar"; flag st "closure_escape"; flag st (if down then "forin_down" else "forin_up");
+    let computed = Rng.pct st.rng 40 in
+    let ef = if computed && Rng.bool st.rng then bin Add (ev b) (ei (f - t)) else ei f in
+    let et = if computed then ev b else ei t in
+    let capture = match Rng.int st.rng 3 with
+      | 0 -> [IExpr (asg (idx (ev fs) (bin Sub (ev i) (ei lo))) (lam st [] TInt [IExpr (ev i)]))]
+      | 1 -> [let_ j (bin Mul (ev i) (ei 10));
+              IExpr (asg (idx (ev fs) (bin Sub (ev i) (ei lo))) (lam st [] TInt [IExpr (bin Add (bin Mul (ev j) (ei 100)) (ev i))]))]
+      | _ -> [IExpr (asg (idx (ev fs) (bin Sub (ev i) (ei lo)))
+                       (lam st [] TInt [IExpr (bin Add (ev i) (ei 1000))]));
+              (* called during the loop as well *)
+              pr (ECall (idx (ev fs) (bin Sub (ev i) (ei lo)), []))] in
+    (* assigning to the variable of a bound inside the body does not change the iterations *)
+    let touch = if computed && Rng.pct st.rng 50 then [IExpr (asg (ev b) (bin Add (ev b) (ei (Rng.range st.rng 1 3))))] else [] in
+    let items =
+      [var_ fs (EArrLit (List.init n (fun _ -> zero ()), t0))]
+      @ (if computed then [var_ b (ei t)] else [])
+      @ [IExpr (forr i ef et (EBlock (capture @ touch @ [IExpr (ei 0)])))]
+      @ List.init n (fun k -> pr (ECall (idx (ev fs) (ei k), [])))
+      @ (if computed then [pr (ev b)] else []) in
+    (items, env)
+  | 1 ->
+    (* the function values are returned from a function that is called twice: up and down *)
+    let mk = fresh st and a = fresh st and b = fresh st and lo = fresh st and fs = fresh st and i = fresh st in
+    let r1 = fresh st and r2 = fresh st in
+    let n = 3 in
+    flag st "closure_loopvar"; flag st "closure_escape"; flag st "forin_down"; flag st "forin_up";
+    let body = [var_ fs (EArrLit (List.init n (fun _ -> zero ()), t0));
+                IExpr (forr i (ev a) (ev b)
+                         (EBlock [IExpr (asg (idx (ev fs) (bin Sub (ev i) (ev lo)))
+                                           (lam st [] TInt [IExpr (bin Add (bin Mul (ev i) (ei 10)) (ev a))]))]));
+                IExpr (ev fs)] in
+    let fd = fdef mk [(a, false, TInt); (b, false, TInt); (lo, false, TInt)] (TArr t0) body in
+    let base = Rng.pick st.rng [-1; 0; 1; 4] in
+    let items = [IFunc fd;
+                 let_ r1 (call mk [ei (base + 2); ei base; ei base]);
+                 let_ r2 (call mk [ei base; ei (base + 2); ei base])]
+                @ List.concat (List.init n (fun k -> [pr (ECall (idx (ev r1) (ei k), [])); pr (ECall (idx (ev r2) (ei k), []))])) in
+    (items, env)
+  | 2 ->
+    (* arrays: the loop variable is the element; assignment through it; captured element cells *)
+    let a = fresh st and x = fresh st and fs = fresh st and k = fresh st in
+    let n = Rng.range st.rng 1 4 in
+    flag st "forin_arr"; flag st "closure_escape";
+    let items =
+      [var_ a (EArrLit (List.init n (fun _ -> lit st), TInt));
+       var_ fs (EArrLit (List.init n (fun _ -> zero ()), t0));
+       var_ k (ei 0);
+       IExpr (fora x (ev a)
+                (EBlock [IExpr (asg (ev x) (bin Add (ev x) (ei (Rng.range st.rng 1 9))));
+                         IExpr (asg (idx (ev fs) (ev k)) (lam st [] TInt [IExpr (ev x)]));
+                         IExpr (asg (ev k) (bin Add (ev k) (ei 1)))]));
+       IExpr (asg (idx (ev a) (ei (Rng.int st.rng n))) (lit st))]
+      @ List.init n (fun j -> pr (ECall (idx (ev fs) (ei j), [])))
+      @ List.init n (fun j -> pr (idx (ev a) (ei j)))
+      @ [pr (fora x (EArrLit ([lit st; lit st], TInt)) (EPrint (ev x)))] in
+    (items, env)
+  | 3 ->
+    (* nested loops, bounds near each other, single-element ranges; the value of a loop *)
+    let i = fresh st and j = fresh st and s = fresh st in
+    let p = Rng.range st.rng (-1) 2 and q = Rng.range st.rng (-1) 2 and r = Rng.range st.rng (-1) 2 in
+    flag st (if p > q then "forin_down" else "forin_up");
+    let items =
+      [var_ s (ei 0);
+       pr (forr i (ei p) (ei q)
+             (EBlock [IExpr (forr j (ev i) (ei r)
+                               (EBlock [pr (bin Add (bin Mul (ev i) (ei 10)) (ev j));
+                                        IExpr (asg (ev s) (bin Add (ev s) (ev j)))]))]));
+       pr (ev s)] in
+    (items, env)
+  | 4 ->
+    (* faults inside the body, caught by the enclosing function; called repeatedly *)
+    let g = fresh st and n = fresh st and i = fresh st and a = fresh st in
+    let m = marker st in
+    let down = Rng.bool st.rng in
+    flag st "catch_probe"; flag st (if down then "forin_down" else "forin_up");
+    let f, t = if down then (2, -2) else (-2, 2) in
+    let fd =
+      if Rng.bool st.rng then
+        fdefc g [(n, false, TInt)] TInt
+          [IExpr (forr i (ei f) (ei t) (EBlock [pr (bin Div (ev n) (ev i))])); IExpr (ei 5)]
+          [(ExDivision, [pr (ei m); IExpr (bin Add (ev n) (ei 1))])] None
+      else
+        fdefc g [(n, false, TInt)] TInt
+          [var_ a (EArrLit ([lit st; lit st; lit st], TInt));
+           IExpr (forr i (if down then ev n else ei 0) (if down then ei 0 else ev n) (EBlock [pr (idx (ev a) (ev i))])); IExpr (ei 5)]
+          [(ExIndexOob, [pr (ei m); IExpr (bin Add (ev n) (ei 1))])] None in
+    let items = [IFunc fd; pr (call g [ei (Rng.range st.rng 2 4)]); pr (call g [ei (Rng.range st.rng 1 2)])] in
+    (items, env)
+  | 5 ->
+    (* the bounds: evaluated once, the upper one first; a sum over a computed range *)
+    let s = fresh st and i = fresh st and n = fresh st in
+    let lo = Rng.range st.rng (-2) 2 in
+    let hi = lo + Rng.int st.rng 4 in
+    let down = Rng.bool st.rng in
+    flag st "order_probe"; flag st (if down then "forin_down" else "forin_up");
+    let f, t = if down then (hi, lo) else (lo, hi) in
+    let items =
+      [var_ s (ei 0); var_ n (ei t);
+       IExpr (forr i (EPrint (ei f)) (EPrint (ev n))
+                (EBlock [IExpr (asg (ev n) (bin Add (ev n) (ei 1))); IExpr (asg (ev s) (bin Add (bin Mul (ev s) (ei 3)) (ev i)))]));
+       pr (ev s); pr (ev n)] in
+    (items, env)
+  | _ ->
+    (* a counter function made inside a loop in a function called repeatedly; loop variable shadows *)
+    let mk = fresh st and a = fresh st and i = fresh st and acc = fresh st and f1 = fresh st and f2 = fresh st in
+    flag st "closure_loopvar"; flag st "closure_escape"; flag st "forin_down";
+    let body = [var_ acc (zero ());
+                IExpr (forr i (ev a) (ei 1)
+                         (EBlock [IExpr (EIf (bin Eq0 (ev i) (ei 2),
+                                            EBlock [IExpr (asg (ev acc) (lam st [] TInt [IExpr (bin Add (bin Mul (ev a) (ei 100)) (ev i))])); IExpr (ei 0)]))]));
+                IExpr (ev acc)] in
+    let fd = fdef mk [(a, false, TInt)] t0 body in
+    let items = [var_ i (lit st); IFunc fd; let_ f1 (call mk [ei 3]); let_ f2 (call mk [ei 4]);
+                 pr (ECall (ev f1, [])); pr (ECall (ev f2, [])); pr (ECall (ev f1, [])); pr (ev i)] in
+    (items, env)
+
 let all = [ "id_pipe", id_pipe; "id_order", id_order; "id_alias", id_alias; "id_counter", id_counter; "id_adder", id_adder;
             "id_loopcap", id_loopcap; "id_reccap", id_reccap; "id_compose", id_compose; "id_deepcap", id_deepcap; "id_catch", id_catch;
-            "id_siblings", id_siblings; "id_catchcap", id_catchcap; "id_tempcall", id_tempcall;
+            "id_siblings", id_siblings; "id_catchcap", id_catchcap; "id_tempcall", id_tempcall; "id_forin", id_forin;
             "id_shadow", id_shadow; "id_shadow2", id_shadow2; "id_shadow3", id_shadow3; "id_agg", id_agg; "id_tail", id_tail; "id_mutual", id_mutual ]
